@@ -42,6 +42,12 @@ class Cmp:
         if P.is_proxy(iv):
             raise AssertionError("proxy in concrete comparison")
         if not U.close(iv, rv):
+            # rounding errors of float operations are relative to the operands: tolerate 1e-12 of the largest float intermediate
+            try:
+                if RX.kind_of(rv) != "int" and abs(complex(iv) - complex(rv)) <= 1e-12 * T.PyAlg.fscale:
+                    return
+            except (TypeError, ValueError):
+                pass
             self.miss(where, "value %r, expected %r" % (iv, rv))
 
     # ---- symbolic expressions (template parameters / measured registers)
